@@ -117,6 +117,90 @@ pub fn run_b3sum_env(cwd: &std::path::Path, args: &[std::ffi::OsString], stdin: 
     RunOut { code: out.status.code(), stdout: out.stdout, stderr: out.stderr }
 }
 
+/// Wait until the pipe behind `fd` holds no unread bytes (the reader has taken everything written so far).
+fn wait_drained(fd: std::os::unix::io::RawFd) {
+    for _ in 0..200_000 {
+        let mut n: libc::c_int = 0;
+        let r = unsafe { libc::ioctl(fd, libc::FIONREAD, &mut n) };
+        if r != 0 || n == 0 {
+            return;
+        }
+        std::thread::yield_now();
+    }
+}
+
+/// Like run_b3sum, but stdin is delivered in the given bursts: each burst is written only after the
+/// child has consumed the previous one, so the child's reads come back short at exactly these
+/// boundaries (the environment answer "short read" made deterministic).
+pub fn run_b3sum_bursts(cwd: &std::path::Path, args: &[std::ffi::OsString], bursts: &[&[u8]]) -> RunOut {
+    use std::io::Write;
+    use std::os::unix::io::AsRawFd;
+    use std::process::{Command, Stdio};
+    let mut child = Command::new(b3sum_bin())
+        .env("RAYON_NUM_THREADS", "3")
+        .args(args)
+        .current_dir(cwd)
+        .env("RUST_BACKTRACE", "0")
+        .stdin(Stdio::piped())
+        .stdout(Stdio::piped())
+        .stderr(Stdio::piped())
+        .spawn()
+        .unwrap_or_else(|e| {
+            eprintln!("cannot spawn b3sum: {}", e);
+            std::process::exit(2)
+        });
+    {
+        let mut si = child.stdin.take().unwrap();
+        let fd = si.as_raw_fd();
+        for b in bursts {
+            // a burst larger than the pipe buffer is split by the kernel anyway; keep them below 64 KiB
+            let _ = si.write_all(b);
+            let _ = si.flush();
+            wait_drained(fd);
+            // the child may have read only part of it; wait_drained returned when nothing is left
+        }
+    }
+    let out = child.wait_with_output().expect("wait");
+    RunOut { code: out.status.code(), stdout: out.stdout, stderr: out.stderr }
+}
+
+/// The same through a named pipe given to b3sum as a path argument.
+pub fn run_b3sum_fifo(cwd: &std::path::Path, args: &[std::ffi::OsString], fifo_name: &str, bursts: &[&[u8]]) -> Option<RunOut> {
+    use std::io::Write;
+    use std::os::unix::io::AsRawFd;
+    use std::process::{Command, Stdio};
+    let path = cwd.join(fifo_name);
+    let _ = std::fs::remove_file(&path);
+    let c = std::ffi::CString::new(path.to_str()?).ok()?;
+    if unsafe { libc::mkfifo(c.as_ptr(), 0o600) } != 0 {
+        return None;
+    }
+    let mut a: Vec<std::ffi::OsString> = args.to_vec();
+    a.push(os(fifo_name));
+    let child = Command::new(b3sum_bin())
+        .env("RAYON_NUM_THREADS", "3")
+        .args(&a)
+        .current_dir(cwd)
+        .env("RUST_BACKTRACE", "0")
+        .stdin(Stdio::null())
+        .stdout(Stdio::piped())
+        .stderr(Stdio::piped())
+        .spawn()
+        .ok()?;
+    {
+        // opening for writing blocks until b3sum has opened the FIFO for reading
+        let mut w = std::fs::OpenOptions::new().write(true).open(&path).ok()?;
+        let fd = w.as_raw_fd();
+        for b in bursts {
+            let _ = w.write_all(b);
+            wait_drained(fd);
+        }
+    }
+    let out = child.wait_with_output().ok()?;
+    let _ = std::fs::remove_file(&path);
+    Some(RunOut { code: out.status.code(), stdout: out.stdout, stderr: out.stderr })
+}
+
 pub fn os(s: &str) -> std::ffi::OsString {
     std::ffi::OsString::from(s)
 }
